@@ -379,7 +379,7 @@ fn handle(line: &str) -> String {
                     let mut meta = Vec::new();
                     pkg.metadata.write(&mut meta).unwrap();
                     let hdr = meta[o.header as usize..].to_vec();
-                    let v = RecVerifier { pat, calls: std::cell::RefCell::new(Vec::new()) };
+                    let v = RecVerifier { algo: p.get(3).copied().unwrap_or("RSA").to_string(), pat, calls: std::cell::RefCell::new(Vec::new()) };
                     let r = pkg.verify_signature(&v);
                     let calls = v.calls.borrow();
                     let mut cov = String::new();
@@ -501,6 +501,7 @@ impl std::io::Write for ScriptSink {
 
 #[derive(Debug)]
 struct RecVerifier {
+    algo: String,
     pat: Vec<bool>,
     calls: std::cell::RefCell<Vec<(Vec<u8>, Vec<u8>)>>,
 }
@@ -518,7 +519,11 @@ impl rpm::signature::Verifying for RecVerifier {
         }
     }
     fn algorithm(&self) -> rpm::signature::AlgorithmType {
-        rpm::signature::AlgorithmType::RSA
+        match self.algo.as_str() {
+            "EdDSA" => rpm::signature::AlgorithmType::EdDSA,
+            "ECDSA" => rpm::signature::AlgorithmType::ECDSA,
+            _ => rpm::signature::AlgorithmType::RSA,
+        }
     }
 }
 
